@@ -101,6 +101,8 @@ def gen_schema(rng, handlers=False, rich=True):
                     dflt = [_pick_default(rng, dt, 0.02) for _ in range(rng.randint(1, 3))] if (rng.random() < 0.5 and not required) else None
                 else:
                     dflt = _pick_default(rng, dt, 0.02) if (not required and rng.random() < 0.5) else None
+                    if dflt is not None and dt in ("string", "null", "string-list") and rng.random() < 0.15:
+                        dflt = rng.choice(["", "  "])      # default='' is a default (the empty string), not "no default"
                 attr = None
                 if kt == "ipaddr-or-hostname" or "." in n or rng.random() < 0.2:
                     attr = "at%d" % len(children)
@@ -311,7 +313,7 @@ def _maybe_case(rng, kt, k):
 
 
 FAULTS = ["unknown-key", "key-is-section-name", "repeat-single-key", "repeat-wild-key", "reuse-section-name",
-          "unknown-type", "abstract-type", "wrong-type", "missing-name", "star-name", "wrong-fixed-name",
+          "unknown-type", "abstract-type", "wrong-type", "wrong-type-fixed-name", "missing-name", "star-name", "wrong-fixed-name",
           "second-single-section", "drop-item", "bad-value", "bad-key", "junk-line", "unclosed", "stray-close",
           "sect-marker", "exc-value", "dup-block", "dollar"]
 
@@ -384,6 +386,18 @@ def _apply_fault_at(rng, elab, cont, tyname, fault):
         if not cons:
             return None
         cont.insert(pos, sect(rng.choice(cons), rng.choice([None, "w1", "fixed1"]), [], rng.random() < 0.5))
+    elif fault == "wrong-type-fixed-name":
+        # a known concrete type that the slot addressed by a FIXED name does not admit, under exactly that name
+        fx = [(c[0], c[1]) for c in children if c[0] and c[1][0] == "sect"]
+        if not fx:
+            return None
+        nm, info = rng.choice(fx)
+        ok = set(_implementers(elab, info[5]))
+        cons = [n for n, te in elab[1] if te[0] == "concrete" and n not in ok]
+        if not cons:
+            return None
+        cont[:] = [it for it in cont if not (it[0] == "sect" and (it[2] or "").lower() == nm.lower())]
+        cont.insert(rng.randint(0, len(cont)), sect(rng.choice(cons), _maybe_case(rng, kt, nm), [], rng.random() < 0.5))
     elif fault == "missing-name":
         ss = [it for it in cont if it[0] == "sect" and it[2]]
         if not ss:
